@@ -6,8 +6,10 @@ import (
 	"fmt"
 	"strings"
 	"testing"
+	"unsafe"
 
 	mocker "github.com/tencent/goom"
+	"github.com/tencent/goom/arg"
 	"github.com/tencent/goom/zzverif/c12/pa"
 	"github.com/tencent/goom/zzverif/c12/pb"
 	"github.com/tencent/goom/zzverif/vmon"
@@ -328,6 +330,10 @@ func TestC12Pkg(t *testing.T) {
 			b.Pkg(pbPath).ExportFunc("foo").As(as).Return(201)
 			b.ExportFunc("foo").As(as).Return(302)
 		}, [3]int{101, 201, 302}},
+		{"Pkg(pa).Var(&x) is the next lookup; the plain ExportFunc(foo) after it is the current package's", func(b *mocker.Builder) {
+			b.Pkg(paPath).Var(&c12gx).Set(5)
+			b.ExportFunc("foo").As(as).Return(304)
+		}, [3]int{-11, -12, 304}},
 		{"override then lookup of the same name again continues the pa mocker", func(b *mocker.Builder) {
 			b.Pkg(paPath).ExportFunc("foo").As(as).Return(102)
 			b.Pkg(paPath).ExportFunc("foo").As(as).When(5).Return(103)
@@ -344,7 +350,11 @@ func TestC12Pkg(t *testing.T) {
 		if perr != nil {
 			rep.Violate("C12/pkg-scenario-panicked", fmt.Sprintf("%s: %v", s.name, perr), nil)
 		} else if got := state(); got != s.want {
-			rep.Violate("C12/pkg-override-scope", fmt.Sprintf("%s: (pa.foo, pb.foo, own foo) = %v, want %v", s.name, got, s.want), nil)
+			key := "C12/pkg-override-scope"
+			if strings.Contains(s.name, ".Var(") {
+				key = "C12/pkg-override-survives-variable-lookup"
+			}
+			rep.Violate(key, fmt.Sprintf("%s: (pa.foo, pb.foo, own foo) = %v, want %v", s.name, got, s.want), nil)
 		}
 		if b.PkgName() != "github.com/tencent/goom/zzverif/c12" && perr == nil {
 			rep.Violate("C12/pkg-override-scope", fmt.Sprintf("%s: builder package is %q after the lookup, want the current package", s.name, b.PkgName()), nil)
@@ -354,5 +364,91 @@ func TestC12Pkg(t *testing.T) {
 			rep.Violate("C12/not-original", fmt.Sprintf("%s: after Reset state %v", s.name, got), nil)
 		}
 	}
+	// the same for unexported struct types addressed by name, with repeated (cache-hit) lookups
+	pstate := func() [3]int { return [3]int{pa.Peek(1), pb.Peek(1), (&keeper{}).peek(1)} }
+	asP := func(k unsafe.Pointer, a int) int { return 0 }
+	for _, s := range []sc{
+		{"Pkg(pa).ExportStruct(*keeper) twice, then plain ExportStruct(*keeper)", func(b *mocker.Builder) {
+			b.Pkg(paPath).ExportStruct("*keeper").Method("peek").As(asP).Return(110)
+			b.Pkg(paPath).ExportStruct("*keeper").Method("peek").As(asP).When(arg.Any(), 5).Return(111)
+			b.ExportStruct("*keeper").Method("peek").As(asP).Return(310)
+		}, [3]int{110, -22, 310}},
+		{"Pkg(pb).ExportStruct(*keeper), plain ExportFunc(foo) next", func(b *mocker.Builder) {
+			b.Pkg(pbPath).ExportStruct("*keeper").Method("peek").As(asP).Return(210)
+			b.Pkg(pbPath).ExportStruct("*keeper").Method("peek").As(asP).When(arg.Any(), 1).Return(211)
+			b.ExportFunc("foo").As(as).Return(303)
+		}, [3]int{-21, 211, -24}},
+		{"Pkg(pa).ExportFunc(foo) twice, then plain ExportStruct(*keeper)", func(b *mocker.Builder) {
+			b.Pkg(paPath).ExportFunc("foo").As(as).Return(104)
+			b.Pkg(paPath).ExportFunc("foo").As(as).When(2).Return(105)
+			b.ExportStruct("*keeper").Method("peek").As(asP).Return(311)
+		}, [3]int{-21, -22, 311}},
+	} {
+		b := mocker.Create()
+		var perr interface{}
+		func() {
+			defer func() { perr = recover() }()
+			s.run(b)
+		}()
+		rep.Eval(1)
+		rep.Class("pkg/" + s.name)
+		if perr != nil {
+			rep.Violate("C12/pkg-scenario-panicked", fmt.Sprintf("%s: %v", s.name, perr), nil)
+		} else if got := pstate(); got != s.want {
+			rep.Violate("C12/pkg-override-scope", fmt.Sprintf("%s: (pa keeper.peek, pb keeper.peek, own keeper.peek) = %v, want %v", s.name, got, s.want), nil)
+		}
+		if b.PkgName() != "github.com/tencent/goom/zzverif/c12" && perr == nil {
+			rep.Violate("C12/pkg-override-scope", fmt.Sprintf("%s: builder package is %q after the lookup, want the current package", s.name, b.PkgName()), nil)
+		}
+		b.Reset()
+		if got := pstate(); got != [3]int{-21, -22, -24} {
+			rep.Violate("C12/not-original", fmt.Sprintf("%s: after Reset state %v", s.name, got), nil)
+		}
+		if got := state(); got != [3]int{-11, -12, -4} {
+			rep.Violate("C12/not-original", fmt.Sprintf("%s: after Reset state %v", s.name, got), nil)
+		}
+	}
+	// after every kind of lookup, first time and repeated, the builder is back in the current package
+	{
+		b := mocker.Create()
+		var x int
+		var ivar fmt.Stringer
+		kinds := []struct {
+			name string
+			do   func()
+		}{
+			{"ExportFunc", func() { b.Pkg(paPath).ExportFunc("foo") }},
+			{"ExportStruct", func() { b.Pkg(paPath).ExportStruct("*keeper") }},
+			{"Func", func() { b.Pkg(paPath).Func(F) }},
+			{"Struct", func() { b.Pkg(paPath).Struct(&keeper{}) }},
+			{"Var", func() { b.Pkg(paPath).Var(&x) }},
+			{"UnExportedVar", func() { b.Pkg(paPath).UnExportedVar("github.com/tencent/goom/zzverif/c12.c12gx") }},
+			{"Interface", func() { b.Pkg(paPath).Interface(&ivar) }},
+		}
+		for _, k := range kinds {
+			for rep2 := 0; rep2 < 3; rep2++ {
+				var perr interface{}
+				func() { defer func() { perr = recover() }(); k.do() }()
+				rep.Eval(1)
+				if perr == nil && b.PkgName() != "github.com/tencent/goom/zzverif/c12" {
+					key := "C12/pkg-override-scope"
+					if k.name == "Var" || k.name == "UnExportedVar" {
+						key = "C12/pkg-override-survives-variable-lookup"
+					}
+					rep.Violate(key, fmt.Sprintf("after Pkg(pa).%s (lookup %d of the same target) the builder package is %q, want the current package", k.name, rep2+1, b.PkgName()), nil)
+					b.Pkg("github.com/tencent/goom/zzverif/c12")
+				}
+			}
+			rep.Class("pkg/after-lookup/" + k.name)
+		}
+		b.Reset()
+	}
 	rep.Sample(map[string]interface{}{"scenario": "Pkg(pa).ExportFunc(foo).Return(100); ExportFunc(foo).Return(300)", "want": "pa.foo=100 pb.foo original own foo=300"})
 }
+
+var c12gx = 1
+
+type keeper struct{ v int }
+
+//go:noinline
+func (k *keeper) peek(a int) int { return -24 - k.v*0 }
